@@ -161,7 +161,44 @@ CLAIMS["C17"] = dict(
          "against the model and evaluates holds_C17 on the real traces.",
     note=TB, design_ref="DESIGN.md §7 C17")
 
+CLAIMS["C02"] = dict(
+    text="Theorems C02_exactly_once_slots (FcProps/C02a.lean: join, try_join in both models, race_ok array/Vec/tuple, zip) "
+         "and C02_exactly_once_plain (FcProps/C02b.lean: race, merge, chain, wait_until future/stream): for every number of "
+         "children, all child scripts of the right kind (Case.kindOk), all histories - the drop after any number of polls "
+         "incl. zero, after completion, after an injected child panic at any child poll, polls and wake-ups after the drop - "
+         "and both waker strategies, holds_C02 holds on the model trace: once the drop has completed, every child c < n has "
+         "exactly one childDropped event, none after dropEnd; for every value v, (#times returned to the caller) + (#times "
+         "dropped by the combinator) = (#times produced by a child); nothing is returned or dropped that no child produced. "
+         "Proof: step invariant relating the PollState table / buffered slots to the multiset accounting (Sim), indexed by "
+         "the number of completed drops. FutureGroup, StreamGroup: the same monitor is evaluated on every real trace and the "
+         "traces are compared with the group model, no theorem yet; concurrent-stream drivers: see C13/C14 when claimed. "
+         "The check re-proves, rebuilds the harness in std/alloc/no_std, runs all families with drop points uniform over "
+         "the history and injected panics (profile `panic`), diffs the ownership projection (returns, child results, child "
+         "and value drops, drop begin/end) against the model and evaluates holds_C02 on the real traces.",
+    note=TB + " The model's history alphabet allows a second `drop` operation, which Rust's ownership rules out; the "
+         "theorems assume at most one drop op for the families whose children are plain fields. Memory effects of a wrong "
+         "bookkeeping (UB) are outside the model: the model shows the bookkeeping never asks for a second drop or reads an "
+         "unwritten slot; the harness observes real drops. Groups and co-stream drivers: correspondence + monitor only.",
+    design_ref="DESIGN.md §7 C02, Appendix A (slot invariant S)")
+
+CLAIMS["C03"] = dict(
+    text="Theorem C03_discipline_fixed (FcProps/C03.lean): for all 13 fixed-children models (join, try_join in both "
+         "models, race, race_ok x3, merge, zip, chain, wait_until future/stream), every number of children, all child scripts "
+         "of the right kind (Case.kindOk), all histories (polls, wake-ups at any time incl. stale ones aimed at finished "
+         "children, drop at any point, injected panic) and both waker strategies (so in particular the direct strategy of "
+         "the alloc-only / no_std builds, which re-polls every unfinished child on every poll), holds_C03 holds on the "
+         "model trace: every child poll happens inside a top-level poll of a combinator that is alive and has not yet "
+         "produced its final result (Ready / None) and is aimed at a child that has neither finished (Ready / None) nor "
+         "been released. Proof: one generic Sim instance from a record of state-only obligations (Disc) discharged per "
+         "family. FutureGroup/StreamGroup (insert/remove/reserve/extend poll nothing; removed members are never polled): "
+         "the same monitor is evaluated on every real group trace and traces are compared with the group model; no "
+         "theorem yet. Concurrent-stream source: see C13-C15 when claimed. The check re-proves, rebuilds the harness in "
+         "the three builds, runs all families, diffs the projection against the model and evaluates holds_C03 on the "
+         "real traces.",
+    note=TB + " Groups: correspondence + monitor on real traces only.",
+    design_ref="DESIGN.md §7 C03")
+
 PENDING = "theorem not yet proved in this revision; the property is exercised by the shared correspondence runs but not claimed"
 NOT_APPLICABLE = {p: PENDING for p in
-                  ["C02", "C03", "C11", "C12", "C13", "C14",
+                  ["C11", "C12", "C13", "C14",
                    "C15", "C18"]}
